@@ -438,6 +438,8 @@ struct Scenario {
     /// probes that are the full word set of a constant of the (last session's) data set
     own_words: HashSet<String>,
     total_docs: u64,
+    /// the data set `own_words` and the reference answers belong to
+    own_assets: PathBuf,
 }
 
 fn run(sc: &Scenario, prefix: &[usize], policy: Option<Policy>, scratch: &Path) -> Exec {
@@ -473,7 +475,7 @@ fn run(sc: &Scenario, prefix: &[usize], policy: Option<Policy>, scratch: &Path) 
                 answers.push(first);
                 for p in sc.probes.iter().filter(|p| p.contains(' ')).take(64) {
                     // only for data sets the session was built from
-                    if sc.own_words.contains(p) && *assets == sc.sessions.last().unwrap().1 {
+                    if sc.own_words.contains(p) && *assets == sc.own_assets {
                         if let Err(e) = own_words_ok(&db, p) {
                             open_errors.push(e);
                             break;
@@ -571,14 +573,43 @@ fn scenarios(scratch: &Path, thorough: bool) -> Vec<Scenario> {
     let pf = probes(&full);
     let own = |d: &[Vec<String>]| -> HashSet<String> { d.iter().filter(|t| typeable(t)).map(|t| t.join(" ")).collect() };
     let (oa, om, of) = (own(&a), own(&m), own(&full));
-    vec![
-        Scenario { name: "mem", sessions: vec![(Session::Mem, a_dir.clone())], probes: pa.clone(), own_words: oa.clone(), total_docs: a.len() as u64 },
-        Scenario { name: "disk-first,disk-reopen", sessions: vec![(Session::Disk, a_dir.clone()), (Session::Disk, a_dir.clone())], probes: pa.clone(), own_words: oa.clone(), total_docs: a.len() as u64 },
-        Scenario { name: "disk-other-data,disk-rebuild", sessions: vec![(Session::Disk, b_dir.clone()), (Session::Disk, a_dir.clone())], probes: pa.clone(), own_words: oa.clone(), total_docs: a.len() as u64 },
-        Scenario { name: "mem-8docs-merge", sessions: vec![(Session::Mem, m_dir.clone())], probes: probes(&m), own_words: om.clone(), total_docs: 8 },
-        Scenario { name: "full-mem", sessions: vec![(Session::Mem, f_dir.clone())], probes: pf.clone(), own_words: of.clone(), total_docs: full.len() as u64 },
-        Scenario { name: "full-disk,reopen", sessions: vec![(Session::Disk, f_dir.clone()), (Session::Disk, f_dir.clone())], probes: pf, own_words: of.clone(), total_docs: full.len() as u64 },
-    ]
+    let mut v = vec![
+        Scenario { name: "mem", sessions: vec![(Session::Mem, a_dir.clone())], probes: pa.clone(), own_words: oa.clone(), total_docs: a.len() as u64, own_assets: a_dir.clone() },
+        Scenario { name: "disk-first,disk-reopen", sessions: vec![(Session::Disk, a_dir.clone()), (Session::Disk, a_dir.clone())], probes: pa.clone(), own_words: oa.clone(), total_docs: a.len() as u64, own_assets: a_dir.clone() },
+        Scenario { name: "disk-other-data,disk-rebuild", sessions: vec![(Session::Disk, b_dir.clone()), (Session::Disk, a_dir.clone())], probes: pa.clone(), own_words: oa.clone(), total_docs: a.len() as u64, own_assets: a_dir.clone() },
+        Scenario { name: "mem-8docs-merge", sessions: vec![(Session::Mem, m_dir.clone())], probes: probes(&m), own_words: om.clone(), total_docs: 8, own_assets: m_dir.clone() },
+        Scenario { name: "full-mem", sessions: vec![(Session::Mem, f_dir.clone())], probes: pf.clone(), own_words: of.clone(), total_docs: full.len() as u64, own_assets: f_dir.clone() },
+        Scenario { name: "full-disk,reopen", sessions: vec![(Session::Disk, f_dir.clone()), (Session::Disk, f_dir.clone())], probes: pf, own_words: of.clone(), total_docs: full.len() as u64, own_assets: f_dir.clone() },
+    ];
+    // session histories: every sequence of up to 2 (thorough 3) sessions over {in-memory build of
+    // data A, on-disk session over data A, on-disk session over data B}; the disk sessions of one
+    // history share a data directory, so a disk session after another is a reopen (same data) or a
+    // rebuild (other data). Every session over data A must answer like the reference execution.
+    let kinds: [(&str, Session, &PathBuf); 3] = [("M", Session::Mem, &a_dir), ("Da", Session::Disk, &a_dir), ("Db", Session::Disk, &b_dir)];
+    let maxlen = if thorough { 4 } else { 2 };
+    let mut seqs: Vec<Vec<usize>> = vec![vec![]];
+    for _ in 0..maxlen {
+        let mut next = Vec::new();
+        for q in &seqs {
+            if q.len() + 1 <= maxlen {
+                for k in 0..3 {
+                    let mut n = q.clone();
+                    n.push(k);
+                    next.push(n);
+                }
+            }
+        }
+        let done: Vec<Vec<usize>> = next.iter().filter(|q| !seqs.contains(q)).cloned().collect();
+        seqs.extend(done);
+    }
+    seqs.retain(|q| !q.is_empty() && q.iter().any(|k| *k != 2));
+    seqs.sort();
+    seqs.dedup();
+    for q in seqs {
+        let name: &'static str = Box::leak(format!("hist:{}", q.iter().map(|k| kinds[*k].0).collect::<Vec<_>>().join(",")).into_boxed_str());
+        v.push(Scenario { name, sessions: q.iter().map(|k| (kinds[*k].1, kinds[*k].2.clone())).collect(), probes: pa.clone(), own_words: oa.clone(), total_docs: a.len() as u64, own_assets: a_dir.clone() });
+    }
+    v
 }
 
 fn worker_main(thorough: bool) {
@@ -778,12 +809,14 @@ fn main() {
     let mut unfinished: Vec<String> = Vec::new();
 
     // DFS scenarios
-    let dfs: Vec<usize> = if thorough { vec![0, 1, 2, 3] } else { vec![0, 1, 2] };
+    let mut dfs: Vec<usize> = if thorough { vec![0, 1, 2, 3] } else { vec![0, 1, 2] };
+    dfs.extend((6..scs.len()).filter(|i| scs[*i].name.starts_with("hist:")));
     let mut reference: BTreeMap<usize, Vec<String>> = BTreeMap::new();
     for si in dfs {
         let sc = &scs[si];
         // scenarios over the same data share a reference
-        let ref_key = if si <= 2 { 0 } else { si };
+        let over_a = si <= 2 || sc.name.starts_with("hist:");
+        let ref_key = if over_a { 0 } else { si };
         let mut frontier: Vec<Vec<usize>> = vec![vec![]];
         while !frontier.is_empty() {
             if Instant::now() > deadline {
@@ -826,7 +859,7 @@ fn main() {
                 for (k, a) in x.answers.iter().enumerate() {
                     // sessions over another data set (the stale index that is
                     // about to be rebuilt) have their own answers
-                    if sc.sessions[k].1 != scs[0].sessions[0].1 && si <= 2 {
+                    if sc.sessions[k].1 != scs[0].sessions[0].1 && over_a {
                         continue;
                     }
                     stats.answer_vectors.insert(format!("{}{a:?}", ref_key));
@@ -942,7 +975,8 @@ fn main() {
     let wall = started.elapsed().as_secs_f64();
     let bounds = serde_json::json!({
         "tie_documents": if thorough { 6 } else { 4 }, "filler_documents": 1,
-        "scenarios_explored_exhaustively": scs.iter().take(if thorough { 4 } else { 3 }).map(|s| s.name).collect::<Vec<_>>(),
+        "scenarios_explored_exhaustively": scs.iter().enumerate().filter(|(i, s)| *i < if thorough { 4 } else { 3 } || s.name.starts_with("hist:")).map(|(_, s)| s.name).collect::<Vec<_>>(),
+        "session_histories": format!("all sequences of <= {} sessions over {{mem(A), disk(A), disk(B)}} containing a session over A", if thorough { 4 } else { 2 }),
         "executions_per_scenario": stats.per_scenario,
         "full_data_corner_schedules": corner_runs,
         "tie_order_cap_above": 6,
